@@ -63,6 +63,18 @@ impl Packet {
 
         // Test with a stream with exactly the size to check border panics
         let packet = stream.split_to(fixed_header.frame_length());
+
+        // The whole frame is in `packet` now: a decoder that runs out of bytes below (a
+        // truncated variable byte integer inside the frame) has met a malformed packet.
+        // Passing its InsufficientBytes on would make the caller wait for more bytes of a
+        // frame that has already been consumed, silently dropping it.
+        Self::read_frame(fixed_header, packet).map_err(|e| match e {
+            Error::InsufficientBytes(_) => Error::MalformedPacket,
+            e => e,
+        })
+    }
+
+    fn read_frame(fixed_header: FixedHeader, packet: BytesMut) -> Result<Packet, Error> {
         let packet_type = fixed_header.packet_type()?;
 
         if fixed_header.remaining_len == 0 {
